@@ -263,3 +263,6 @@ N('benign.epoch-mask-operand-order', [(P + 'common/parse.py', "datetime.datetime
 N('benign.reraise-explicit', [(P + 'common/parse.py', "        except NotEnoughData:\n            self._parsed_length -= parsed_length\n            raise", "        except NotEnoughData as e:\n            self._parsed_length -= parsed_length\n            raise e")])
 
 N('benign.ja3-rewritten', [(P + 'tls/subprotocol.py', '        extension_types = []\n        named_curves = []\n        ec_point_formats = []\n        for extension in self.extensions:\n            if (not isinstance(extension.extension_type, TlsInvalidTypeTwoByte) or\n                    extension.extension_type.value.value_type != TlsInvalidType.GREASE):\n                extension_types.append(str(extension.extension_type.value.code))\n\n            if extension.extension_type == TlsExtensionType.SUPPORTED_GROUPS:\n                named_curves = [\n                    str(named_curve.value.code)\n                    for named_curve in extension.elliptic_curves\n                    if (not isinstance(named_curve, TlsInvalidTypeTwoByte) or\n                        named_curve.value.value_type != TlsInvalidType.GREASE)\n                ]\n            elif extension.extension_type == TlsExtensionType.EC_POINT_FORMATS:\n                ec_point_formats = [\n                    str(point_format.value.code)\n                    for point_format in extension.point_formats\n                    if (not isinstance(point_format, TlsInvalidTypeOneByte) or\n                        point_format.value.value_type != TlsInvalidType.GREASE)\n                ]\n\n', '        extension_types = [\n            str(extension.extension_type.value.code)\n            for extension in self.extensions\n            if not (isinstance(extension.extension_type, TlsInvalidTypeTwoByte) and\n                    extension.extension_type.value.value_type == TlsInvalidType.GREASE)\n        ]\n        named_curves = []\n        ec_point_formats = []\n        try:\n            groups = self.extensions.get_item_by_type(TlsExtensionType.SUPPORTED_GROUPS)\n        except KeyError:\n            pass\n        else:\n            named_curves = [\n                str(named_curve.value.code)\n                for named_curve in groups.elliptic_curves\n                if (not isinstance(named_curve, TlsInvalidTypeTwoByte) or\n                    named_curve.value.value_type != TlsInvalidType.GREASE)\n            ]\n        try:\n            formats = self.extensions.get_item_by_type(TlsExtensionType.EC_POINT_FORMATS)\n        except KeyError:\n            pass\n        else:\n            ec_point_formats = [\n                str(point_format.value.code)\n                for point_format in formats.point_formats\n                if (not isinstance(point_format, TlsInvalidTypeOneByte) or\n                    point_format.value.value_type != TlsInvalidType.GREASE)\n            ]\n\n')])
+B('C11.timestamp-ms-scale', ['C11'], [(P + 'common/parse.py', "                timestamp *= 1000\n                timestamp += value.microsecond // 1000", "                timestamp *= 1000\n                timestamp += value.microsecond // 100")], mention=['C11.R5'])
+B('C11.flags-and-instead-of-or', ['C11'], [(P + 'common/parse.py', "            flag |= value >> shift_right", "            flag ^= value >> shift_right\n            flag |= 0")] if False else [(P + 'common/parse.py', "            if flag & (value[0] << shift_left)\n", "            if flag == (value[0] << shift_left)\n")], mention=['C11.R4'])
+N('benign.flags-loop-rewritten', [(P + 'common/parse.py', "        flag = 0\n        for value in values:\n            flag |= value >> shift_right\n", "        flag = 0\n        for value in values:\n            flag = flag | (value >> shift_right)\n")])
